@@ -1206,7 +1206,14 @@ struct Splitter
             if (redKey(fu.reduce(m, o.name)) == keyU && src.flip(60)) {
                 UnitsSpec &m2 = mm.spec.units[i];
                 m2.units.clear();
-                m2.import = src.flip(50) ? imp : importIndex(m, j, false);
+                // The validator rejects two imports of one units_ref from one href. Read from files, the same library can be
+                // named by a second, equivalent href; with addModel keys it cannot (the case is then judged without (ii)).
+                if (opt.libsParsed) {
+                    m2.import = importIndex(m, j, false);
+                    mm.spec.imports[static_cast<size_t>(m2.import)].url = "./" + mm.spec.imports[static_cast<size_t>(m2.import)].url;
+                } else {
+                    m2.import = src.flip(50) ? imp : importIndex(m, j, false);
+                }
                 m2.importRef = nm[u];
                 f.classes.insert("same-units-imported-under-two-names");
             }
